@@ -20,7 +20,7 @@ var (
 // other goroutines run: the balancer state becomes an arbitrary Inv_gb state again and the call's
 // context may end.  After the interference budget is used up the wait is assumed to end eventually
 // (the channel becomes READY or the context ends) - the progress assumption on the environment.
-func verifOnBlock() {
+func verifOnBlockRR() {
 	if !verifRRArmed {
 		return
 	}
